@@ -261,6 +261,7 @@ def gen_case(rng, tier: str) -> Dict[str, Any]:
     mixed = rng.random() < 0.35
     e0 = 0 if on_existing else None
     kinds_probe = {m["metadata_type"] for m in probe_md if m.get("metadata_type") in XKINDS}
+    was_reset: Dict[int, bool] = {}  # executors on which a translation was meant to succeed (they own their dict)
     while len(hist) < n:
         r = rng.random()
         if r < 0.15 or not backs:
@@ -275,12 +276,22 @@ def gen_case(rng, tier: str) -> Dict[str, Any]:
         if r < 0.25:
             kinds = [k for k in XKINDS if k not in kinds_probe] or XKINDS
             kind = rng.choice(kinds)
+            must_succeed = False
+            if was_reset.get(e) and kinds_probe and rng.random() < 0.6:
+                # the probe's own kind, on an executor that no longer shares the default dict: benign iff a
+                # translation on it reaches reset() afterwards
+                kind, must_succeed = rng.choice(sorted(kinds_probe)), True
             hist.append({"op": "addx", "e": e, "x": {kind: rng.choice(["img", "h1", "h2"])}})
-            if rng.random() < 0.6 and len(hist) < n:
+            if must_succeed or (rng.random() < 0.6 and len(hist) < n):
                 q = rng.choice([k for k, v in CATALOG.items() if v["b"] == eb and v.get("end", "ok") == "ok"])
                 own = (on_existing and e == e0 and kind in probe_x)
                 md = list(CATALOG[q].get("needs", [])) + ([] if own else [ext_md(rng, kind)])
-                hist.append({"op": "tr", "e": e, "q": CATALOG[q]["q"], "md": md})
+                md = [m for m in md if m.get("metadata_type") != "define_enum" or m["namespace"].split(".")[0] not in N]
+                if len(md) == len(list(CATALOG[q].get("needs", []))) + (0 if own else 1):
+                    hist.append({"op": "tr", "e": e, "q": CATALOG[q]["q"], "md": md})
+                    was_reset[e] = True
+                elif must_succeed:
+                    hist.pop()
             continue
         intent = rng.choices(["ok", "md", "transform", "finder", "wrong", "write"], [60, 9, 5, 5, 6, 15])[0]
         same = on_existing and e == e0
@@ -296,6 +307,7 @@ def gen_case(rng, tier: str) -> Dict[str, Any]:
             if any(m.get("metadata_type") == "define_enum" for m in CATALOG[q].get("needs", [])) and "xAOD" in N:
                 continue
             rng.shuffle(md)
+            was_reset[e] = True
         else:
             extra = gen_extras(rng, eb, K, N, False, allow_job=not (same and intent == "write"))
             if intent == "md":
@@ -493,9 +505,15 @@ def translate(ctx):
     vlib.write_if_changed(vlib.LEAN / "FaxVerif/Generated/C07Defaults.lean", "\n".join(src))
 
 
-def evaluate(ctx, cases: List[Dict[str, Any]], stream: str, judge: bool = True):
+def evaluate(ctx, cases: List[Dict[str, Any]], stream: str, judge: bool = True, follow_impl: bool = True):
     """Run cases on the real code (cut to their benign prefix), compare states with the model, judge the probe.
-    Returns the list of (case, verdict dict)."""
+    Returns the list of (case, verdict dict).
+
+    follow_impl=True  (main stream): every operation is simulated from the state OBSERVED before it, and `benign` is
+        evaluated there — a one-step simulation with the tolerance described in Driver.lean, so that a repaired leak
+        (implementation cleaner than the model) is neither a disagreement nor a wrongly judged case.
+    follow_impl=False (search): the model runs on its own from s₀, exactly as in the hypotheses of the theorems; the
+        states are not compared, the fresh-interpreter oracle is the only judge."""
     runs = pmap(run_history, cases)
     fresh_cache: Dict[str, Dict[str, Any]] = {}
 
@@ -513,7 +531,10 @@ def evaluate(ctx, cases: List[Dict[str, Any]], stream: str, judge: bool = True):
 
     def requests(case, run):
         fr = fresh_cache[fresh_of(case["probe"])]
-        return {"op": "run", "history": history_model(case, run["ops"]), "states": [abs_state(st) for st in run["states"]], "probe": probe_model(case["probe"], run["probe"], fr), "on": case["probe"].get("on")}
+        req = {"op": "run", "history": history_model(case, run["ops"]), "probe": probe_model(case["probe"], run["probe"], fr), "on": case["probe"].get("on")}
+        if follow_impl:
+            req["states"] = [abs_state(st) for st in run["states"]]
+        return req
 
     for c, r in zip(cases, runs):
         if "crash" in r or "crash" in fresh_cache[fresh_of(c["probe"])]:
@@ -570,7 +591,7 @@ def evaluate(ctx, cases: List[Dict[str, Any]], stream: str, judge: bool = True):
         all_benign = a["allBenign"]
         verdict.update({"holds": g.get("holds"), "why": g.get("why", ""), "benign": all_benign, "clean": a["clean"]})
         # ---- the tie: states after every operation, the model's own predictions
-        for k, (op, out, st, ist) in enumerate(zip(hist, r["ops"], a["steps"], r["states"])):
+        for k, (op, out, st, ist) in enumerate(zip(hist, r["ops"], a["steps"], r["states"]) if follow_impl else []):
             if not outcome_matches(st["outcome"], out):
                 ctx.disagreement("outcome-of-operation", {"history": hist[: k + 1]}, st["outcome"], {k2: out.get(k2) for k2 in ("stage", "error", "message")})
                 break
@@ -579,7 +600,9 @@ def evaluate(ctx, cases: List[Dict[str, Any]], stream: str, judge: bool = True):
                 ctx.disagreement("state-after-operation", {"history": hist[: k + 1], "operation": k}, d, "see model/implementation in the text")
                 break
         else:
-            if not outcome_matches(a["probe"]["outcome"], r["probe"]):
+            if not follow_impl:
+                pass
+            elif not outcome_matches(a["probe"]["outcome"], r["probe"]):
                 ctx.disagreement("outcome-of-probe", {"history": hist, "probe": c["probe"]}, a["probe"]["outcome"], {k2: r["probe"].get(k2) for k2 in ("stage", "error", "message")})
             else:
                 d = state_diff(a["probe"]["asis"], a["probe"]["ideal"], r["final"])
@@ -587,7 +610,7 @@ def evaluate(ctx, cases: List[Dict[str, Any]], stream: str, judge: bool = True):
                     ctx.disagreement("state-after-probe", {"history": hist, "probe": c["probe"]}, d, "see text")
             impl = _impl()
             mf = sorted(impl.expected_found_render(*f) for f in a["probe"]["found"])
-            if mf != sorted(r["probe"].get("found", [])):
+            if follow_impl and mf != sorted(r["probe"].get("found", [])):
                 ctx.disagreement("found-extended-md-of-probe", {"history": hist, "probe": c["probe"]}, mf, r["probe"].get("found"))
         # the footprint the model was told must cover what the translator really looked up
         qid = BY_EXPR.get(c["probe"]["q"])
@@ -598,7 +621,7 @@ def evaluate(ctx, cases: List[Dict[str, Any]], stream: str, judge: bool = True):
                 ctx.disagreement("registry-footprint", {"probe": c["probe"]}, sorted(declared), sorted(measured))
         # ---- the property, judged on the implementation's own outputs
         if judge and all_benign:
-            if not a["clean"]:
+            if not a["clean"] and follow_impl:
                 # the theorem `benign_preserves_*` says this cannot happen for the model
                 ctx.disagreement("benign-history-but-unclean-model-state", {"history": hist, "probe": c["probe"]}, "clean", "not clean")
             if not g.get("holds", False):
@@ -697,7 +720,7 @@ def fails(ctx, case) -> Optional[Dict[str, Any]]:
     f = run_fresh(case["probe"])
     if "crash" in r or "crash" in f:
         return None
-    a, g = ctx.driver(DRIVER, [{"op": "run", "history": history_model(case, r["ops"]), "states": [abs_state(st) for st in r["states"]], "probe": probe_model(case["probe"], r["probe"], f), "on": case["probe"].get("on")}, {"op": "agree", "fresh": obs_of(f), "after": obs_of(r["probe"])}])
+    a, g = ctx.driver(DRIVER, [{"op": "run", "history": history_model(case, r["ops"]), "probe": probe_model(case["probe"], r["probe"], f), "on": case["probe"].get("on")}, {"op": "agree", "fresh": obs_of(f), "after": obs_of(r["probe"])}])
     if "bad" in a or "bad" in g:
         return None
     if a["allBenign"] and not g["holds"]:
@@ -732,7 +755,7 @@ def search(ctx, broken):
     for _ in range(4):
         cases = [gen_case(ctx.rng, "thorough") for _ in range(160)]
         before = len(ctx.violations)
-        res = evaluate(ctx, cases, "search")
+        res = evaluate(ctx, cases, "search", follow_impl=False)
         for c, v in res:
             if v["benign"] and v["holds"] is False and case_key(c) not in known:
                 c2, info = shrink(ctx, c, {"why": v["why"]})
